@@ -49,7 +49,7 @@ def execute(sc) -> Result:
     run = driver.run_scenario(sc, rng_seed=7)
     try:
         account_run(res, run, sc)
-        res.history_key = "|".join(map(str, (sc["grid"]["h"]["kind"], vd, va, tr.get("advection")))) + "|" + abstract_history(run)
+        res.history_key = "|".join(map(str, (sc["grid"]["h"]["kind"], vd, va, tr.get("advection")))) + "|" + abstract_history(run, sc)
         v, foreign = crash_violation(ID, run, ANCHORS)
         if v is not None:
             res.add(v)
